@@ -208,11 +208,18 @@ func (c *Cache) Exec(ctx context.Context, qCtx *query_context.Context, next sequ
 
 	err := next.ExecNext(ctx, qCtx)
 
-	if r := qCtx.R(); r != nil && cachedResp != r { // pointer compare. r is not cachedResp
+	if r := qCtx.R(); r != nil && cachedResp != r && answersQuestion(r, q) { // pointer compare. r is not cachedResp
 		saveRespToCache(msgKey, r, c.backend, c.args.LazyCacheTTL)
 		c.updatedKey.Add(1)
 	}
 	return err
+}
+
+// answersQuestion reports whether r is a response to q's question.
+// A response that was set for another question (e.g. before a plugin rewrote
+// the query) must not be stored under this query's key.
+func answersQuestion(r, q *dns.Msg) bool {
+	return len(r.Question) == 1 && len(q.Question) == 1 && r.Question[0] == q.Question[0]
 }
 
 // doLazyUpdate starts a new goroutine to execute next node and update the cache in the background.
@@ -233,7 +240,7 @@ func (c *Cache) doLazyUpdate(msgKey string, qCtx *query_context.Context, next se
 		}
 
 		r := qCtx.R()
-		if r != nil {
+		if r != nil && answersQuestion(r, qCtx.Q()) {
 			saveRespToCache(msgKey, r, c.backend, c.args.LazyCacheTTL)
 			c.updatedKey.Add(1)
 		}
